@@ -233,6 +233,42 @@ pub fn families(tier: Tier) -> Vec<(&'static str, Vec<Case>)> {
         }
         fams.push(("F2c-error-carrying-literals", v));
     }
+    // F7: tokens and lines longer than 1 024 bytes (a comment line, a call with 331 operands):
+    // single-character edits in front of, at the start of and inside them
+    {
+        let mut v = vec![];
+        let a = format!("proc main() {{\n  a := 1; // {}\n  b := 2;\n}}\n", "c".repeat(1500));
+        let b = format!("proc main() {{\n  printi({}1);\n  b := 2;\n}}\n", "1 + ".repeat(330));
+        for t in [&a, &b] {
+            let n = t.len();
+            for p in [0usize, 13, 14, 16, 17, 23, 24, 25, 26, 27, 28, 30, 1040, 1050, n - 12, n - 3] {
+                for r in ["x", "//", " ", "("] {
+                    v.push(Case { family: "F7-long-tokens", text: t.clone(), batches: vec![vec![(p, p, r.to_string())]] });
+                }
+                v.push(Case { family: "F7-long-tokens", text: t.clone(), batches: vec![vec![(p, p + 1, String::new())]] });
+            }
+        }
+        fams.push(("F7-long-tokens", v));
+    }
+    // F8: every range of a small program with non-ASCII text in comments and a character
+    // literal, replaced by nothing / one letter (at protocol level half of the events carry the
+    // deprecated rangeLength)
+    {
+        let mut v = vec![];
+        let t = "// Z\u{e4}hler \u{1f600}\nproc main() {\n  i := '\u{e9}'; // gr\u{f6}\u{df}er\n}\n".to_string();
+        let b = char_boundaries(&t);
+        for (i, &s0) in b.iter().enumerate() {
+            for &e0 in b[i..].iter().take(8) {
+                for r in ["", "x"] {
+                    if s0 == e0 && r.is_empty() {
+                        continue;
+                    }
+                    v.push(Case { family: "F8-non-ascii-ranges", text: t.clone(), batches: vec![vec![(s0, e0, r.to_string())]] });
+                }
+            }
+        }
+        fams.push(("F8-non-ascii-ranges", v));
+    }
     // F4: generated programs, every 0..2-token window replaced by 0..1 token
     {
         let items = progs::syntactic_family(Tier::Quick);
@@ -642,7 +678,7 @@ pub fn sweep(tier: Tier) -> SweepResult {
         use crate::session::{Session, URI};
         let cases: Vec<&Case> = fams
             .iter()
-            .filter(|(n, _)| *n == "F2-token-soup" || *n == "F4-program-token-windows" || *n == "batches-of-two" || *n == "empty-update" || *n == "same-length-edits")
+            .filter(|(n, _)| *n == "F2-token-soup" || *n == "F4-program-token-windows" || *n == "F8-non-ascii-ranges" || *n == "batches-of-two" || *n == "empty-update" || *n == "same-length-edits")
             .flat_map(|(_, cs)| cs.iter().step_by(tier.pick(23, 5)))
             // (quick tier: the large program only at the analysis level above)
             .filter(|c| tier == Tier::Thorough || c.text.len() <= 2000)
@@ -658,7 +694,11 @@ pub fn sweep(tier: Tier) -> SweepResult {
                     for (a, e, r) in b {
                         let (l1, c1) = lsptext::position(&cur, *a);
                         let (l2, c2) = lsptext::position(&cur, *e);
-                        evs.push(json!({"range": {"start": {"line": l1, "character": c1}, "end": {"line": l2, "character": c2}}, "text": r}));
+                        let mut ev = json!({"range": {"start": {"line": l1, "character": c1}, "end": {"line": l2, "character": c2}}, "text": r});
+                        if c.id() % 2 == 1 {
+                            ev["rangeLength"] = json!(lsptext::utf16_len(&cur[*a..*e]));
+                        }
+                        evs.push(ev);
                         cur.replace_range(*a..*e, r);
                     }
                     // every second batch of several events ends with a range-less event instead
@@ -709,7 +749,7 @@ after a fresh didOpen {:?}", last(&o), last(&of)))
         use crate::session::{Session, URI};
         let cases: Vec<&Case> = fams
             .iter()
-            .filter(|(n, _)| *n == "F2-token-soup" || *n == "F4-program-token-windows" || *n == "F5-valid-to-valid-token-edits" || *n == "F6-structural-edits" || *n == "batches-of-two" || *n == "empty-update" || *n == "same-length-edits")
+            .filter(|(n, _)| *n == "F2-token-soup" || *n == "F4-program-token-windows" || *n == "F5-valid-to-valid-token-edits" || *n == "F6-structural-edits" || *n == "F7-long-tokens" || *n == "F8-non-ascii-ranges" || *n == "batches-of-two" || *n == "empty-update" || *n == "same-length-edits")
             .flat_map(|(_, cs)| cs.iter().step_by(tier.pick(211, 29)))
             .filter(|c| !known.contains(&c.id()))
             .filter(|c| tier == Tier::Thorough || c.text.len() <= 2000 || c.id() % 8 == 0)
@@ -736,7 +776,11 @@ after a fresh didOpen {:?}", last(&o), last(&of)))
                     for (a, e, r) in b {
                         let (l1, c1) = lsptext::position(&cur, *a);
                         let (l2, c2) = lsptext::position(&cur, *e);
-                        evs.push(json!({"range": {"start": {"line": l1, "character": c1}, "end": {"line": l2, "character": c2}}, "text": r}));
+                        let mut ev = json!({"range": {"start": {"line": l1, "character": c1}, "end": {"line": l2, "character": c2}}, "text": r});
+                        if c.id() % 2 == 1 {
+                            ev["rangeLength"] = json!(lsptext::utf16_len(&cur[*a..*e]));
+                        }
+                        evs.push(ev);
                         cur.replace_range(*a..*e, r);
                     }
                     s.change(URI, Value::Array(evs));
